@@ -183,7 +183,7 @@ def _work(units):
 
 
 def run(res, tier):
-    bits = 15 if tier == "quick" else 19
+    bits = 15 if tier == "quick" else 23
     step = 1 << 11
     units = [("ci", m, p) for m in METHODS for p in PS] + [("unknown",), ("ztail",), ("zpairs",), ("spelling", "fwd"), ("spelling", "rev")]
     units += [("z", lo, min(lo + step, 1 << bits), bits) for lo in range(1, 1 << bits, step)]
